@@ -412,11 +412,15 @@ impl PublishBuilder {
         log::trace!("Publish (QoS1) to {:#?}", self.packet);
 
         if tx.is_canceled() {
+            // send slot is not used, notify next queued sender
+            self.shared.wake_waiter();
             Err(SendPacketError::StreamingCancelled)
         } else {
             let rx =
                 self.shared.wait_publish_response(idx, AckType::Publish, self.packet, chunk);
-            let _ = tx.send(());
+            if rx.is_ok() {
+                let _ = tx.send(());
+            }
 
             rx?.await.map(Ack::publish).map_err(|_| SendPacketError::Disconnected)
         }
@@ -610,13 +614,17 @@ impl SubscribeBuilder {
             // send subscribe to client
             log::trace!("Sending subscribe packet {packet:#?}");
 
-            let rx = shared.wait_response(packet.packet_id, AckType::Subscribe)?;
+            let id = packet.packet_id;
+            let rx = shared.wait_response(id, AckType::Subscribe)?;
             match shared.encode_packet(codec::Packet::Subscribe(packet)) {
                 Ok(()) => {
                     // wait ack from peer
                     rx.await.map_err(|_| SendPacketError::Disconnected).map(Ack::subscribe)
                 }
-                Err(err) => Err(SendPacketError::Encode(err)),
+                Err(err) => {
+                    shared.cancel_response(id);
+                    Err(SendPacketError::Encode(err))
+                }
             }
         }
     }
@@ -695,13 +703,17 @@ impl UnsubscribeBuilder {
             // send unsubscribe to client
             log::trace!("Sending unsubscribe packet {packet:#?}");
 
-            let rx = shared.wait_response(packet.packet_id, AckType::Unsubscribe)?;
+            let id = packet.packet_id;
+            let rx = shared.wait_response(id, AckType::Unsubscribe)?;
             match shared.encode_packet(codec::Packet::Unsubscribe(packet)) {
                 Ok(()) => {
                     // wait ack from peer
                     rx.await.map_err(|_| SendPacketError::Disconnected).map(Ack::unsubscribe)
                 }
-                Err(err) => Err(SendPacketError::Encode(err)),
+                Err(err) => {
+                    shared.cancel_response(id);
+                    Err(SendPacketError::Encode(err))
+                }
             }
         }
     }
